@@ -1,0 +1,16 @@
+//go:build verif
+
+package types
+
+// Contracts for the deductive verifier in /verif (govc). Comment-only; compiled only with -tags verif.
+// Ghost predicates for the client keeper this module depends on (expected_keepers.go): only these interface
+// contracts establish them, so a caller proves "success ==> LCVerified...(exact arguments)" only by making the call.
+
+//@ spec func LCVerifiedMembership(clientID string, h exported.Height, delayT int, delayB int, path iface, value string) bool
+//@ spec func LCVerifiedNonMembership(clientID string, h exported.Height, delayT int, delayB int, path iface) bool
+
+//@ contract interface ClientKeeper.VerifyMembership
+//@   ensures err == nil ==> LCVerifiedMembership(clientID, height, delayTimePeriod, delayBlockPeriod, path, value)
+
+//@ contract interface ClientKeeper.VerifyNonMembership
+//@   ensures err == nil ==> LCVerifiedNonMembership(clientID, height, delayTimePeriod, delayBlockPeriod, path)
